@@ -93,9 +93,13 @@ static void detect_new_transition(void) {
         if (g_counting) V_COUNT(name, 1);                                                                        \
     } while (0)
 
-static void make_item(uint8_t *buf, int id) {
-    for (size_t k = 0; k < g.item; ++k) buf[k] = (uint8_t)(id * 16 + 1 + (int)k * 7 + (int)(k >> 7) * 3);
+#define NIDS 14 /* ids 1..2*MAXLEN_MAX+1 can be in use at once */
+static uint8_t item_tab[NIDS][MAXITEM];
+static void make_item_tab(void) {
+    for (int id = 0; id < NIDS; ++id)
+        for (size_t k = 0; k < MAXITEM; ++k) item_tab[id][k] = (uint8_t)(id * 16 + 1 + (int)k * 7 + (int)(k >> 7) * 3);
 }
+static void make_item(uint8_t *buf, int id) { memcpy(buf, item_tab[id], g.item); }
 static int cmp_items(const void *a, const void *b) { return (int)*(const uint8_t *)a - (int)*(const uint8_t *)b; }
 
 static int new_id(void) {
@@ -284,8 +288,12 @@ static void check_list(int l, const char *after) {
     ESX_CHECK(aws_array_list_length(a) == len && aws_array_list_capacity(a) == cap, "observer-mutates", "after %s: observers changed length/capacity of %s", after, n);
 }
 
+/* The full observation runs after every newly explored transition and after every step of a --replay.  While the
+ * engine re-executes an already explored prefix the same observations were made (and passed) when that prefix was
+ * the new transition; executions are deterministic (the engine checks canon-on-replay), so they are not repeated. */
 static void check_all(const char *after) {
-    for (int l = 0; l < nlists() && !esx_failed; ++l) check_list(l, after);
+    if (g_counting || v_replay_token)
+        for (int l = 0; l < nlists() && !esx_failed; ++l) check_list(l, after);
     if (!esx_failed)
         for (int l = 0; l < nlists(); ++l) R[l].cap = aws_array_list_capacity(&L[l]);
 }
@@ -622,19 +630,19 @@ static void build_alphabet(void) {
         add_op(O_PUSH_FRONT, 0, I_NONE, I_NONE);
         add_op(O_POP_BACK, 0, I_NONE, I_NONE);
         add_op(O_POP_FRONT, 0, I_NONE, I_NONE);
-        static const int pfn[] = {I_0, I_1, I_2, I_LEN, I_LEN_P1};
-        for (int i = 0; i < 5; ++i) add_op(O_POP_FRONT_N, 0, pfn[i], I_NONE);
-        static const int sat[] = {I_0, I_LEN_M1, I_LEN, I_LEN_P2, I_SMAX};
-        for (int i = 0; i < 5; ++i) add_op(O_SET_AT, 0, sat[i], I_NONE);
-        static const int era[] = {I_0, I_1, I_LEN_M2, I_LEN_M1, I_LEN};
-        for (int i = 0; i < 5; ++i) add_op(O_ERASE, 0, era[i], I_NONE);
-        static const int swp[][2] = {{I_0, I_0}, {I_0, I_1}, {I_LEN_M1, I_0}, {I_1, I_LEN_M1}, {I_LEN_M1, I_LEN_M2}};
-        for (int i = 0; i < 5; ++i) add_op(O_SWAP, 0, swp[i][0], swp[i][1]);
+        static const int pfn[] = {I_0, I_1, I_2, I_LEN_M1, I_LEN, I_LEN_P1};
+        for (int i = 0; i < 6; ++i) add_op(O_POP_FRONT_N, 0, pfn[i], I_NONE);
+        static const int sat[] = {I_0, I_1, I_LEN_M1, I_LEN, I_LEN_P1, I_LEN_P2, I_SMAX_DIV, I_SMAX};
+        for (int i = 0; i < 8; ++i) add_op(O_SET_AT, 0, sat[i], I_NONE);
+        static const int era[] = {I_0, I_1, I_2, I_LEN_M2, I_LEN_M1, I_LEN, I_SMAX};
+        for (int i = 0; i < 7; ++i) add_op(O_ERASE, 0, era[i], I_NONE);
+        static const int swp[][2] = {{I_0, I_0}, {I_0, I_1}, {I_LEN_M1, I_0}, {I_1, I_LEN_M1}, {I_LEN_M1, I_LEN_M2}, {I_1, I_2}};
+        for (int i = 0; i < 6; ++i) add_op(O_SWAP, 0, swp[i][0], swp[i][1]);
         add_op(O_SORT, 0, I_NONE, I_NONE);
         add_op(O_SHRINK, 0, I_NONE, I_NONE);
         add_op(O_CLEAR, 0, I_NONE, I_NONE);
-        static const int ens[] = {I_LEN, I_SMAX_DIV, I_SMAX};
-        for (int i = 0; i < 3; ++i) add_op(O_ENSURE, 0, ens[i], I_NONE);
+        static const int ens[] = {I_LEN, I_LEN_P2, I_SMAX_DIV, I_SMAX};
+        for (int i = 0; i < 4; ++i) add_op(O_ENSURE, 0, ens[i], I_NONE);
     } else {
         add_op(O_PUSH_BACK, 0, I_NONE, I_NONE);
         add_op(O_PUSH_FRONT, 0, I_NONE, I_NONE);
@@ -663,6 +671,7 @@ static const char *store_name(int dyn, size_t n0, char *buf, size_t cap) {
 }
 
 static int g_rc;
+static int g_light; /* --light: the Debug-build pass of the thorough tier uses one length bound lower */
 static const char *g_only; /* --only <substring>: developer aid, restricts a run to matching configurations */
 static void run_cfg(size_t item, int two, int maxlen, int dynA, size_t nA, int dynB, size_t nB, bool in_tier) {
     char sa[24], sb[24];
@@ -695,20 +704,32 @@ static void run_cfg(size_t item, int two, int maxlen, int dynA, size_t nA, int d
 int main(int argc, char **argv) {
     v_init(argc, argv);
     aws_common_library_init(aws_default_allocator());
+    make_item_tab();
     static const size_t items[] = {1, 3, 8, 128, 129, 300};
     static const struct {
         int dyn;
         size_t n0;
     } st1[] = {{1, 0}, {1, 1}, {1, 2}, {0, 2}, {0, 3}};
     bool th = v_thorough();
-    for (int i = 1; i + 1 < argc; ++i)
-        if (!strcmp(argv[i], "--only")) g_only = argv[i + 1];
+    for (int i = 1; i < argc; ++i) {
+        if (!strcmp(argv[i], "--only") && i + 1 < argc) g_only = argv[i + 1];
+        if (!strcmp(argv[i], "--light")) g_light = 1;
+    }
     /* family 1: single list.  A replay token names its configuration, so every configuration of every tier is
-     * visited when replaying. */
+     * visited when replaying.  dyn0/dyn1/dyn2 reach the same set of states (clear + shrink_to_fit leads to capacity 0,
+     * growth leads back), so only dyn0 is run at the largest bound; dyn1/dyn2 add their initial allocation path. */
     for (int i = 0; i < 6; ++i)
         for (int s = 0; s < 5; ++s)
             for (int m = 3; m <= MAXLEN_MAX; ++m) {
-                bool in_tier = th ? (m == MAXLEN_MAX) : (m == 4 && (items[i] == 8 || items[i] == 129 ? true : (s == 0 || s == 4)));
+                bool small_item = items[i] == 8 || items[i] == 129;
+                bool init12 = s == 1 || s == 2;
+                bool in_tier;
+                if (th && !g_light)
+                    in_tier = init12 ? m == 3 : m == MAXLEN_MAX;
+                else if (th) /* Debug-build pass: one bound lower */
+                    in_tier = init12 ? m == 3 : m == 4;
+                else
+                    in_tier = init12 ? (m == 3 && small_item) : (m == 4 && (small_item || s != 3));
                 run_cfg(items[i], 0, m, st1[s].dyn, st1[s].n0, 0, 0, in_tier);
             }
     /* family 2: two lists */
@@ -719,8 +740,16 @@ int main(int argc, char **argv) {
     for (int i = 0; i < 6; ++i)
         for (int sa = 0; sa < 3; ++sa)
             for (int sb = 0; sb < 4; ++sb)
-                for (int m = 2; m <= 3; ++m) {
-                    bool in_tier = th ? (m == 3) : (m == 2 && (items[i] == 8 || items[i] == 129) && sa != 1);
+                for (int m = 2; m <= 4; ++m) {
+                    bool small_item = items[i] == 8 || items[i] == 129;
+                    bool variant_init = sa == 1 || sb == 1; /* Adyn2 / Bdyn1: same reachable states as dyn0, other initial path */
+                    bool in_tier;
+                    if (th && !g_light)
+                        in_tier = variant_init ? m == 3 : m == 4;
+                    else if (th)
+                        in_tier = m == 3;
+                    else
+                        in_tier = m == 3 && small_item && sa != 1;
                     run_cfg(items[i], 1, m, stA[sa].dyn, stA[sa].n0, stB[sb].dyn, stB[sb].n0, in_tier);
                 }
     v_finish();
